@@ -8,6 +8,7 @@
   transforms; the driver instantiates `T := TObj` (a `TExpr` plus the box attached to that object).
 -/
 import GwcsModel.TExpr
+import GwcsModel.Generated.ReadOnly
 
 namespace Gwcs.Pipe
 
@@ -190,6 +191,7 @@ def step (s : WState) : Op → Except Err WState
       pure { s with pipe := p }
   | .insertFrame i tr o => do
       let (p, (n, v)) ← insertFrame s.pipe i (tr.map (fun e => ⟨e, none⟩)) o
+      if readOnlyNames.contains n then throw .other
       pure { pipe := p, attrs := setAttr s.attrs n v }
   | .setBBox v => do
       let p ← setBBox s.pipe v
